@@ -39,7 +39,7 @@ LEAVES = ["field", "posint", "negint", "float", "negfloat", "str", "null"]
 PARENTS = {  # kind -> positions
     "add": ["l", "r"], "sub": ["l", "r"], "mul": ["l", "r"], "div": ["l", "r"], "neg": ["a"],
     "eq": ["l", "r"], "lt": ["l", "r"], "like": ["l", "p"], "in": ["l", "v"], "between": ["l", "lo", "hi"],
-    "isnull": ["l"], "not": ["a"], "and": ["l", "r"], "or": ["l", "r"], "xor": ["l", "r"], "fn": ["a0", "a1"],
+    "isnull": ["l"], "not": ["a"], "and": ["l", "r"], "or": ["l", "r"], "xor": ["l", "r"], "fn": ["a0", "a1"], "mod": ["a0", "a1"],
     "case": ["c", "t", "e"],
 }
 COMPOUND = list(PARENTS)
@@ -84,6 +84,8 @@ def mk(kind, names, **child):
         return {"t": kind, "l": child.get("l") or mk("eq", names), "r": child.get("r") or mk("lt", names)}
     if kind == "fn":
         return {"t": "fn", "n": "COALESCE", "args": [g("a0"), g("a1")]}
+    if kind == "mod":  # a function a dialect may prefer to spell as an infix operator
+        return {"t": "fn", "n": "MOD", "args": [g("a0"), g("a1")]}
     if kind == "case":
         return {"t": "case", "w": [[child.get("c") or mk("eq", names), g("t")]], "e": g("e")}
     raise ValueError(kind)
@@ -147,6 +149,15 @@ def random_tree(rnd, depth, names, want_bool=False):
 
 def cases(tier, seed, shard, nshards):
     k = 0
+    # several conditions handed to an aggregate / analytic FILTER: an implicit AND over groups that keep their own brackets
+    bool_kinds = ["eq", "lt", "like", "in", "between", "isnull", "not", "and", "or", "xor"]
+    for host in ("agg-one-call", "agg-two-calls", "analytic-one-call"):
+        for c1 in bool_kinds:
+            for c2 in bool_kinds:
+                for c3 in (None, "or", "eq"):
+                    k += 1
+                    if k % nshards == shard:
+                        yield {"k": "filter", "host": host, "conds": [c1, c2] + ([c3] if c3 else [])}
     for parent, positions in PARENTS.items():
         for pos in positions:
             for child in COMPOUND + LEAVES:
@@ -226,6 +237,8 @@ def build(t):
             if not isinstance(l, reg["Criterion"]) or not isinstance(r, reg["Criterion"]):
                 raise Unbuildable("%s needs criteria" % k)
             return {"and": l.__and__, "or": l.__or__, "xor": l.__xor__}[k](r)
+        if k == "fn" and t["n"] == "MOD":
+            return reg["Mod"](*[build(a) for a in t["args"]])
         if k == "fn":
             return reg["fn.Coalesce"](*[build(a) for a in t["args"]])
         if k == "case":
@@ -270,6 +283,8 @@ def ref_sql(t):
         return "(NOT %s)" % ref_sql(t["a"])
     if k in ("and", "or"):
         return "(%s %s %s)" % (ref_sql(t["l"]), k.upper(), ref_sql(t["r"]))
+    if k == "fn" and t["n"] == "MOD":
+        return "MOD(%s, %s)" % (ref_sql(t["args"][0]), ref_sql(t["args"][1]))  # (SQLite's % truncates to integers, MOD() does not)
     if k == "fn":
         return "COALESCE(%s)" % ", ".join(ref_sql(a) for a in t["args"])
     if k == "case":
@@ -512,7 +527,69 @@ def extract(sql, prefix, suffix):
     return None
 
 
+def run_filter(case, mon):
+    reg = registry()
+    names = Names()
+    conds = [mk(c, names) for c in case["conds"]]
+    tree = conds[0]
+    for c in conds[1:]:
+        tree = {"t": "and", "l": tree, "r": c}
+    want = norm(tree)
+    try:
+        built = [build(c) for c in conds]
+    except Unbuildable:
+        mon.count("unbuildable_with_python_operators")
+        return
+    x = reg["Field"]("agg_x")
+    if case["host"] == "agg-one-call":
+        o = reg["fn.Sum"](x).filter(*built)
+    elif case["host"] == "agg-two-calls":
+        o = reg["fn.Sum"](x).filter(built[0])
+        for b in built[1:]:
+            o = o.filter(b)
+    else:
+        o = reg["an.Sum"](x).filter(*built).over(reg["Field"]("agg_p"))
+    for dname, ctx in contexts().items():
+        sql = o.get_sql(ctx)
+        i = sql.find("FILTER(WHERE ")
+        if i < 0:
+            mon.violation("filter:missing:%s" % case["host"], "no FILTER(WHERE ..) in %r" % sql[:200])
+            return
+        # the text up to the bracket that closes FILTER(
+        depth, j = 1, i + len("FILTER(")
+        toks_text = sql[j:]
+        end = None
+        instr = False
+        for n_, ch in enumerate(toks_text):
+            if ch == "'":
+                instr = not instr
+            if instr:
+                continue
+            if ch == "(":
+                depth += 1
+            elif ch == ")":
+                depth -= 1
+                if depth == 0:
+                    end = n_
+                    break
+        inner = toks_text[len("WHERE "):end]
+        mon.count("renders_parsed")
+        mon.count("filter_conjunctions_parsed")
+        try:
+            back = norm(parse_expr(inner, dname))
+            problem = None if back == want else "reads back as a different tree"
+        except ParseError as e:
+            problem = "does not parse (%s)" % e
+        if problem:
+            mon.violation("filter-conjunction:%s:%s" % (case["host"], "+".join(sorted(set(case["conds"])))),
+                          "%s: FILTER conditions %s render %r, which %s" % (dname, case["conds"], inner[:200], problem), {"sql": sql})
+            return
+    mon.nontrivial(["filter", case["host"], case["conds"]])
+
+
 def run_case(case, mon):
+    if case["k"] == "filter":
+        return run_filter(case, mon)
     tree = case["tree"]
     reg = registry()
     if case["k"] == "triple":
